@@ -41,6 +41,22 @@ impl DumpRegistry {
     pub fn get_repo_path(
         &mut self, rpki_notify: Option<&uri::Https>
     ) -> PathBuf {
+        let res = self._get_repo_path(rpki_notify);
+        #[cfg(feature = "verif-hooks")]
+        crate::verif::point("path.map", || {
+            format!(
+                "dump-repository\t{} {}\t{}",
+                self.base_dir.display(),
+                rpki_notify.map(|uri| uri.as_str()).unwrap_or("rsync"),
+                res.display()
+            )
+        });
+        res
+    }
+
+    fn _get_repo_path(
+        &mut self, rpki_notify: Option<&uri::Https>
+    ) -> PathBuf {
         if let Some(rpki_notify) = rpki_notify {
             if let Some(path) = self.rrdp_uris.get(rpki_notify) {
                 self.base_dir.join(path)
